@@ -226,7 +226,7 @@ func runReject(cs RejCase) ev.Outcome {
 				return err
 			}
 		}
-		err, psig, pmsg := callRound(stage, f)
+		err, psig, pmsg := callRound(stage, kind, f)
 		if psig != "" {
 			return ev.Fail(psig, "%s: %s", why, pmsg)
 		}
@@ -327,7 +327,7 @@ func runReject(cs RejCase) ev.Outcome {
 		v := withSID(cs.Kind, other.value(cs.Kind), base.r1.SessionID)
 		classes = append(classes, cs.Curve2+"->"+cs.Curve)
 		if cs.Kind == "r1" {
-			err, psig, pmsg := callRound("EvaluatorRound2", func() error {
+			err, psig, pmsg := callRound("EvaluatorRound2", cs.Kind, func() error {
 				_, _, err := sha2pc.EvaluatorRound2(gen.NewDRBG(cs.Seed, streamE2), c, v.(sha2pc.Round1Payload), base.b)
 				return err
 			})
